@@ -155,26 +155,48 @@ func (m *Machine) mapLookup(mo *MapObj, k Val, mt *types.Map) (Val, bool) {
 	if mo != nil {
 		for _, e := range mo.entries {
 			if m.branch(m.valEq(mt.Key(), e.k, k)) {
-				return e.v, true
+				return m.Load(Ptr{e.vobj, 0}, mt.Elem()), true
 			}
 		}
 	}
 	return m.zeroVal(mt.Elem()), false
 }
 
-func (m *Machine) mapUpdate(mo *MapObj, k, v Val) {
+// mapSlot returns the element slot for key k, inserting a zeroed one when absent (runtime.mapassign).
+func (m *Machine) mapSlot(mo *MapObj, k Val) *Obj {
 	if mo == nil {
 		endPath("PANIC", "assignment to entry in nil map")
 	}
-	for i, e := range mo.entries {
+	if !types.Comparable(mo.typ.Key()) {
+		endPath("PANIC", "runtime error: hash of unhashable type %s", mo.typ.Key())
+	}
+	for _, e := range mo.entries {
 		if m.branch(m.valEq(mo.typ.Key(), e.k, k)) {
-			m.touchMap(mo)
-			mo.entries[i].v = v
-			return
+			return e.vobj
 		}
 	}
 	m.touchMap(mo)
-	mo.entries = append(mo.entries, MapEntry{k, v})
+	vo := m.heap.New(sizeof(mo.typ.Elem()), "mapslot")
+	mo.entries = append(mo.entries, MapEntry{k: k, vobj: vo})
+	return vo
+}
+
+func (m *Machine) mapUpdate(mo *MapObj, k, v Val) {
+	vo := m.mapSlot(mo, k)
+	m.Store(Ptr{vo, 0}, mo.typ.Elem(), v)
+}
+
+func (m *Machine) entryKeyObj(mo *MapObj, i int) *Obj {
+	e := &mo.entries[i]
+	if e.kobj == nil {
+		ko := m.heap.New(sizeof(mo.typ.Key()), "mapkey")
+		m.Store(Ptr{ko, 0}, mo.typ.Key(), e.k)
+		ko.ro = true
+		m.touchMap(mo)
+		mo.entries[i].kobj = ko
+		return ko
+	}
+	return e.kobj
 }
 
 // ---- range ----
@@ -218,7 +240,7 @@ func (m *Machine) rangeNext(it Val, x *ssa.Next) Val {
 		}
 		e := i.mo.entries[i.i]
 		i.i++
-		return Agg{Bool(true), e.k, e.v}
+		return Agg{Bool(true), e.k, m.Load(Ptr{e.vobj, 0}, i.mo.typ.Elem())}
 	}
 	endPath("UNSUPPORTED", "next on %T", it)
 	return nil
@@ -257,21 +279,22 @@ func (m *Machine) indexByte(s Val, c *Term) Val {
 }
 
 func ctz(x *Term) *Term {
-	r := Const(64, uint64(x.w))
+	r := Const(8, uint64(x.w))
 	for i := int(x.w) - 1; i >= 0; i-- {
 		bit := Eq(Extract(x, uint8(i), uint8(i)), Const(1, 1))
-		r = Ite(bit, Const(64, uint64(i)), r)
+		r = Ite(bit, Const(8, uint64(i)), r)
 	}
-	return r
+	return Zext(64, r)
 }
 
+// bitlen(x) = math/bits.Len as a priority chain over the bits, built in 8 bits and zero-extended
 func bitlen(x *Term) *Term {
-	r := Const(64, 0)
+	r := Const(8, 0)
 	for i := 0; i < int(x.w); i++ {
 		bit := Eq(Extract(x, uint8(i), uint8(i)), Const(1, 1))
-		r = Ite(bit, Const(64, uint64(i+1)), r)
+		r = Ite(bit, Const(8, uint64(i+1)), r)
 	}
-	return r
+	return Zext(64, r)
 }
 
 func (m *Machine) newError(pkg, typ string) Val {
@@ -307,6 +330,27 @@ func (m *Machine) stub(fn *ssa.Function, args []Val) (r Val, ok bool) {
 	case "fmt.Sprintf", "fmt.Sprint", "strconv.Quote", "strconv.Itoa", "time.quote":
 		return m.strObj("<opaque>"), true
 	case "fmt.Errorf":
+		// message opaque; %w keeps the wrapped error (the first operand that is an error), as *fmt.wrapError does
+		format := m.strConcrete(args[0].(Str))
+		if strings.Contains(format, "%w") {
+			if ops, ok := args[1].(Slice); ok {
+				errT := types.Universe.Lookup("error").Type().Underlying().(*types.Interface)
+				anyT := types.NewInterfaceType(nil, nil)
+				for i := 0; i < ops.n; i++ {
+					iv, _ := m.Load(Ptr{ops.p.obj, ops.p.off + 16*i}, anyT).(Iface)
+					if iv.t != nil && types.Implements(iv.t, errT) {
+						p := m.prog.ImportedPackage("fmt")
+						wt := p.Type("wrapError").Type()
+						o := m.heap.New(sizeof(wt), "fmt.wrapError")
+						st := wt.Underlying().(*types.Struct)
+						offs := sizes.Offsetsof(fieldsOf(st))
+						m.Store(Ptr{o, int(offs[0])}, st.Field(0).Type(), m.strObj("<opaque>"))
+						m.Store(Ptr{o, int(offs[1])}, st.Field(1).Type(), iv)
+						return Iface{types.NewPointer(wt), Ptr{o, 0}}, true
+					}
+				}
+			}
+		}
 		return m.newError("errors", "errorString"), true
 	case "github.com/segmentio/encoding/json.syntaxError":
 		return m.newError("encoding/json", "SyntaxError"), true
@@ -419,6 +463,11 @@ func (m *Machine) external(fn *ssa.Function, args []Val) Val {
 		}
 	}
 	m.stubsHit[full]++
+	if target, ok := m.ld.linknames[full]; ok {
+		if r, ok := m.linkTarget(target, fn, args); ok {
+			return r
+		}
+	}
 	switch {
 	case full == "internal/bytealg.IndexByte" || full == "internal/bytealg.IndexByteString":
 		return m.indexByte(args[0], args[1].(*Term))
@@ -715,4 +764,199 @@ func (m *Machine) arbitrary(t types.Type, depth int) Val {
 		return Iface{}
 	}
 	return m.zeroVal(t)
+}
+
+// flattenWords lays the arguments out as machine words the way the register ABI passes them (struct fields in order).
+func flattenWords(args []Val) []Val {
+	var out []Val
+	for _, a := range args {
+		switch x := a.(type) {
+		case Agg:
+			out = append(out, flattenWords([]Val(x))...)
+		case Slice:
+			out = append(out, x.p, Const(64, uint64(x.n)), Const(64, uint64(x.c)))
+		case Str:
+			out = append(out, x.p, Const(64, uint64(x.n)))
+		default:
+			out = append(out, a)
+		}
+	}
+	return out
+}
+
+func (m *Machine) wordPtr(v Val, what string) Ptr {
+	switch x := v.(type) {
+	case Ptr:
+		return x
+	case PtrInt:
+		return x.p
+	case *Term:
+		if x.IsConst() && x.c == 0 {
+			return Ptr{}
+		}
+		endPath("MEMSAFETY", "%s: an integer word (%s) is used as a pointer", what, describeTerm(x))
+	}
+	endPath("MEMSAFETY", "%s: a %T word is used as a pointer", what, v)
+	return Ptr{}
+}
+
+func describeTerm(t *Term) string {
+	if t.IsConst() {
+		return fmt.Sprintf("%#x", t.c)
+	}
+	return "symbolic"
+}
+
+func (m *Machine) wordInt(v Val, what string) *Term {
+	switch x := v.(type) {
+	case *Term:
+		return x
+	case Ptr:
+		if x.obj == nil {
+			return Const(64, 0)
+		}
+		endPath("MEMSAFETY", "%s: a pointer word is used as an integer count", what)
+	}
+	endPath("MEMSAFETY", "%s: a %T word is used as an integer", what, v)
+	return nil
+}
+
+func (m *Machine) rtypeArg(v Val, what string) types.Type {
+	p := m.wordPtr(v, what)
+	t, ok := m.rtypeOf[p.obj]
+	if !ok {
+		endPath("MEMSAFETY", "%s: type argument is not a type descriptor", what)
+	}
+	return t
+}
+
+// linkTarget implements the runtime functions the repository binds with //go:linkname, by the name and the real
+// signature (in machine words) of the TARGET symbol: a declaration whose parameter list does not match the target's
+// shows up as words of the wrong kind.
+func (m *Machine) linkTarget(target string, fn *ssa.Function, args []Val) (Val, bool) {
+	w := flattenWords(args)
+	need := func(n int) {
+		if len(w) != n {
+			// the callee would read its arguments from the wrong registers
+			if len(w) < n {
+				endPath("MEMSAFETY", "%s takes %d argument words, the linkname declaration %s passes %d", target, n, fn, len(w))
+			}
+		}
+	}
+	switch target {
+	case "runtime.newarray", "reflect.unsafe_NewArray":
+		need(2)
+		t := m.rtypeArg(w[0], target)
+		n := m.allocCount(m.wordInt(w[1], target), sizeof(t), target)
+		if n < 0 {
+			endPath("PANIC", "runtime error: makeslice: len out of range")
+		}
+		o := m.heap.New(n*sizeof(t), "newarray:"+t.String())
+		return Ptr{o, 0}, true
+	case "runtime.typedslicecopy":
+		// func typedslicecopy(typ *_type, dstPtr unsafe.Pointer, dstLen int, srcPtr unsafe.Pointer, srcLen int) int
+		need(5)
+		t := m.rtypeArg(w[0], target)
+		asLen := func(v Val) int {
+			if p, ok := v.(Ptr); ok && p.obj != nil {
+				return 1 << 40 // an address read as a length
+			}
+			return m.concInt(m.wordInt(v, target), "typedslicecopy length")
+		}
+		n := min(asLen(w[2]), asLen(w[4]))
+		if n > 0 { // the runtime returns before touching the pointers when nothing is to be copied
+			dst := m.wordPtr(w[1], target+" dstPtr")
+			src := m.wordPtr(w[3], target+" srcPtr")
+			m.copyCells(dst, src, n*sizeof(t))
+		}
+		return Const(64, uint64(n)), true
+	case "reflect.typedslicecopy":
+		// func typedslicecopy(t *abi.Type, dst, src unsafeheader.Slice) int
+		need(7)
+		t := m.rtypeArg(w[0], target)
+		dst := m.wordPtr(w[1], target+" dst.Data")
+		dl := m.concInt(m.wordInt(w[2], target+" dst.Len"), "typedslicecopy dst.Len")
+		src := m.wordPtr(w[4], target+" src.Data")
+		sl := m.concInt(m.wordInt(w[5], target+" src.Len"), "typedslicecopy src.Len")
+		n := min(dl, sl)
+		if n > 0 {
+			m.copyCells(dst, src, n*sizeof(t))
+		}
+		return Const(64, uint64(n)), true
+	case "runtime.typedmemmove":
+		need(3)
+		t := m.rtypeArg(w[0], target)
+		dst, src := m.wordPtr(w[1], target), m.wordPtr(w[2], target)
+		if sizeof(t) > 0 {
+			m.copyCells(dst, src, sizeof(t))
+		}
+		return nil, true
+	case "reflect.makemap":
+		need(2)
+		t := m.rtypeArg(w[0], target)
+		mt, ok := t.Underlying().(*types.Map)
+		if !ok {
+			endPath("MEMSAFETY", "makemap of non-map type %s", t)
+		}
+		m.allocCount(m.wordInt(w[1], target), 8, "makemap size hint")
+		return Ptr{m.newMap(mt).hdr, 0}, true
+	case "runtime.mapassign":
+		need(3)
+		mo := m.mapArg(w[1], target)
+		t := m.rtypeArg(w[0], target)
+		if mt, ok := t.Underlying().(*types.Map); !ok || !types.Identical(mt, mo.typ) {
+			endPath("MEMSAFETY", "mapassign: map type descriptor %s does not match the map", t)
+		}
+		k := m.Load(m.wordPtr(w[2], target), mo.typ.Key())
+		return Ptr{m.mapSlot(mo, k), 0}, true
+	case "runtime.mapiterinit":
+		need(3)
+		it := m.wordPtr(w[2], target)
+		var mo *MapObj
+		if p := m.wordPtr(w[1], target); p.obj != nil {
+			mo = m.mapArg(w[1], target)
+		}
+		st := &mapIterState{mo, -1}
+		m.mapIters[it.obj] = st
+		// hiter: key, value, t, h at offsets 0, 8, 16, 24
+		m.storePtrVal(Ptr{it.obj, it.off + 16}, m.wordPtr(w[0], target))
+		if mo != nil {
+			m.storePtrVal(Ptr{it.obj, it.off + 24}, Ptr{mo.hdr, 0})
+		}
+		m.mapIterAdvance(it, st)
+		return nil, true
+	case "runtime.mapiternext":
+		need(1)
+		it := m.wordPtr(w[0], target)
+		st, ok := m.mapIters[it.obj]
+		if !ok {
+			endPath("MEMSAFETY", "mapiternext on an iterator that was not initialised")
+		}
+		m.mapIterAdvance(it, st)
+		return nil, true
+	}
+	return nil, false
+}
+
+func (m *Machine) mapArg(v Val, what string) *MapObj {
+	p := m.wordPtr(v, what)
+	if p.obj == nil {
+		endPath("PANIC", "%s: nil map", what)
+	}
+	mo, ok := m.heap.mapOf[p.obj]
+	if !ok || p.off != 0 {
+		endPath("MEMSAFETY", "%s: pointer is not a map header", what)
+	}
+	return mo
+}
+
+func (m *Machine) mapIterAdvance(it Ptr, st *mapIterState) {
+	st.i++
+	if st.mo == nil || st.i >= len(st.mo.entries) {
+		m.storePtrVal(Ptr{it.obj, it.off}, Ptr{})
+		m.storePtrVal(Ptr{it.obj, it.off + 8}, Ptr{})
+		return
+	}
+	m.storePtrVal(Ptr{it.obj, it.off}, Ptr{m.entryKeyObj(st.mo, st.i), 0})
+	m.storePtrVal(Ptr{it.obj, it.off + 8}, Ptr{st.mo.entries[st.i].vobj, 0})
 }
